@@ -58,6 +58,6 @@ Verdict ==
     Done => PrintT(ToJson([id |-> Prog.id, wd |-> WellDefined, nout |-> Len(st.out),
                            fw |-> FwDiff, fwwhy |-> (IF Prog.fw.status = "ok" THEN Describe(Prog.fw.ev, st.out, FwDiff) ELSE ""),
                            py |-> PyDiff, pywhy |-> (IF Prog.py.status = "ok" THEN Describe(Prog.py.ev, st.out, PyDiff) ELSE ""),
-                           feat |-> st.feat, ty |-> st.ty, narrowed |-> Narrowed, live |-> LiveLen, lv |-> st.lv,
+                           feat |-> st.feat, ty |-> st.ty, ty0 |-> st.ty0, narrowed |-> Narrowed, live |-> LiveLen, lv |-> st.lv,
                            exp |-> (IF FwDiff > 0 /\ FwDiff <= Len(st.out) THEN st.out[FwDiff] ELSE [e |-> "none"])]))
 =============================================================================
